@@ -193,8 +193,10 @@ class _Tol:
     def close(cls, got, want, mult=1.0):
         want = np.asarray(want, dtype=float)
         mx = float(np.max(np.abs(want))) if want.size else 0.0
-        mx = max(mx, cls.floor * mult)
-        return np.allclose(got, want, rtol=1e-9, atol=1e-12 * (min(1.0, mx) if mx > 0 else 1.0))
+        # absolute part: 1e-12 of the result's own magnitude (at most 1), or of the largest term when that is bigger -
+        # a sum evaluated as a difference of squares cannot be more exact than the rounding of its largest term
+        scale = max(min(1.0, mx), cls.floor * mult)
+        return np.allclose(got, want, rtol=1e-9, atol=1e-12 * (scale if scale > 0 else 1.0))
 
 
 def _check_closed_forms(model, u, w, N, D, stats, where):
